@@ -75,6 +75,16 @@ func checkQueryOpt(t interface {
 			t.Fatalf("%s: [%s] proof verifies under a relabelled position: stated (index=%d,total=%d) but the item sits elsewhere in a tree of another size (same path shape, root does not commit to the leaf count); kinds=%v",
 				what, idRelabel, q.proof.Index, q.proof.Total, q.kinds)
 		}
+		if emptyRootSignature(q) {
+			lib.Class(what, "FINDING:empty-root-accepted")
+			if lib.IsKnown(idEmptyRoot) {
+				lib.ObservedKnown(idEmptyRoot)
+				lib.ExcludedByKnown(idEmptyRoot)
+				return
+			}
+			t.Fatalf("%s: [%s] a proof whose (index=%d,total=%d) and %d aunts describe no path at all verifies against an EMPTY root (the failed recomputation yields nil, and nil equals the empty root); kinds=%v",
+				what, idEmptyRoot, q.proof.Index, q.proof.Total, len(q.proof.Aunts), q.kinds)
+		}
 		just := justified(q, trees) != nil
 		t.Fatalf("%s: accepted a (item,index,total,path) combination that is not genuine: index=%d total=%d aunts=%d item=%x justified(item at index of total-leaf tree with this root)=%v kinds=%v",
 			what, q.proof.Index, q.proof.Total, len(q.proof.Aunts), trunc(q.item), just, q.kinds)
@@ -337,8 +347,10 @@ func TestTxProof(t *testing.T) {
 				rootField = nil
 				q.kinds = append(q.kinds, "roothash-nil")
 			case "short":
-				rootField = cloneBytes(q.root[:rapid.IntRange(1, len(q.root)-1).Draw(t, "rhlen")])
-				q.kinds = append(q.kinds, "roothash-short")
+				if len(q.root) > 1 {
+					rootField = cloneBytes(q.root[:rapid.IntRange(1, len(q.root)-1).Draw(t, "rhlen")])
+					q.kinds = append(q.kinds, "roothash-short")
+				}
 			case "extended":
 				rootField = append(cloneBytes(q.root), 0)
 				q.kinds = append(q.kinds, "roothash-extended")
@@ -509,6 +521,10 @@ func TestPartSet(t *testing.T) {
 		maxBytes = 200 << 10
 	}
 	rapid.Check(t, func(t *rapid.T) {
+		if rapid.IntRange(0, 99).Draw(t, "zero-length-data") == 0 {
+			checkEmptyData(t)
+			return
+		}
 		pc := genPSCase(t, maxN, maxBytes)
 		want := chunks(pc.data, pc.partSize)
 		n := len(want)
@@ -557,7 +573,7 @@ func TestPartSet(t *testing.T) {
 
 		// ---- header of the receiving part set ----
 		hdr := types.PartSetHeader{Total: uint32(n), Hash: cloneBytes(ref.root)}
-		hkind := rapid.SampledFrom([]string{"genuine", "genuine", "genuine", "genuine", "genuine", "genuine", "total+1", "total-1", "total-other", "total-relabel", "foreign-root"}).Draw(t, "hdr")
+		hkind := rapid.SampledFrom([]string{"genuine", "genuine", "genuine", "genuine", "genuine", "genuine", "total+1", "total-1", "total-other", "total-relabel", "foreign-root", "empty-hash"}).Draw(t, "hdr")
 		switch hkind {
 		case "total+1":
 			hdr.Total++
@@ -577,6 +593,12 @@ func TestPartSet(t *testing.T) {
 			hdr.Total = uint32(cands[rapid.IntRange(0, len(cands)-1).Draw(t, "hdr.cand")].total)
 		case "foreign-root":
 			hdr.Hash = cloneBytes(oref.root)
+		case "empty-hash":
+			// PartSetHeader.ValidateBasic allows an absent hash; it commits to nothing
+			hdr.Hash = nil
+			if rapid.Bool().Draw(t, "hdr.emptynotnil") {
+				hdr.Hash = []byte{}
+			}
 		}
 		headerGenuine := int(hdr.Total) == n && bytes.Equal(hdr.Hash, ref.root)
 		if !headerGenuine && int(hdr.Total) == oref.n() && bytes.Equal(hdr.Hash, oref.root) {
@@ -636,6 +658,14 @@ func TestPartSet(t *testing.T) {
 						}
 						lib.ObservedKnown(idRelabel)
 						lib.ExcludedByKnown(idRelabel)
+					case emptyRootSignature(&query{proof: part.Proof, item: part.Bytes, root: hdr.Hash}):
+						lib.Class("TestPartSet", "FINDING:empty-root-accepted")
+						if !lib.IsKnown(idEmptyRoot) {
+							t.Fatalf("[%s] AddPart accepted a part under a header with an EMPTY hash: the proof (index=%d,total=%d, %d aunts) describes no path, the failed root recomputation (nil) equals the empty hash (op=%s %v)",
+								idEmptyRoot, part.Proof.Index, part.Proof.Total, len(part.Proof.Aunts), kind, qk(q))
+						}
+						lib.ObservedKnown(idEmptyRoot)
+						lib.ExcludedByKnown(idEmptyRoot)
 					default:
 						t.Fatalf("AddPart accepted (true,nil) a part that is not piece %d of the committed data (header genuine=%v total=%d n=%d; proof %d/%d; op=%s %v)",
 							idx, headerGenuine, T, n, part.Proof.Index, part.Proof.Total, kind, qk(q))
@@ -846,4 +876,46 @@ func seqInts(n int) []int {
 		s[i] = i
 	}
 	return s
+}
+
+// checkEmptyData: data length 0 ("all data lengths"). The part set of no data has no parts, the root of the empty
+// tree, is complete, refuses every part and reassembles to no bytes.
+func checkEmptyData(t *rapid.T) {
+	partSize := rapid.IntRange(1, 65536).Draw(t, "ps")
+	data := []byte{}
+	if rapid.Bool().Draw(t, "nildata") {
+		data = nil
+	}
+	probe := func(what string, ps *types.PartSet) {
+		if ps.Total() != 0 || ps.Count() != 0 || ps.ByteSize() != 0 || !ps.IsComplete() || !bytes.Equal(ps.Hash(), refEmptyHash()) {
+			t.Fatalf("%s of empty data: total=%d count=%d bytes=%d complete=%v hash=%x (want the empty tree %x)", what, ps.Total(), ps.Count(), ps.ByteSize(), ps.IsComplete(), ps.Hash(), refEmptyHash())
+		}
+		some := types.NewPartSetFromData([]byte("x"), 1).GetPart(0)
+		if added, _ := ps.AddPart(some); added {
+			t.Fatalf("%s of empty data admitted a part", what)
+		}
+		var got []byte
+		var pnc interface{}
+		var err error
+		func() {
+			defer func() { pnc = recover() }()
+			got, err = io.ReadAll(ps.GetReader())
+		}()
+		if pnc != nil {
+			lib.Class("TestPartSet", "FINDING:empty-set-reader-panics")
+			if lib.IsKnown(idEmptyReader) {
+				lib.ObservedKnown(idEmptyReader)
+				lib.ExcludedByKnown(idEmptyReader)
+				return
+			}
+			t.Fatalf("[%s] %s of empty data is complete (0 of 0 parts) but reassembling it panics: %v", idEmptyReader, what, pnc)
+		}
+		if err != nil || len(got) != 0 {
+			t.Fatalf("%s of empty data reassembles to %d bytes, err=%v (want 0 bytes)", what, len(got), err)
+		}
+	}
+	src := types.NewPartSetFromData(data, uint32(partSize))
+	probe("NewPartSetFromData", src)
+	probe("NewPartSetFromHeader", types.NewPartSetFromHeader(src.Header()))
+	lib.Case("TestPartSet", lib.FP("empty-data", partSize), false, "data:empty")
 }
